@@ -130,8 +130,7 @@ func (m *pathParamMatcher) Matches(request *heimdall.Request, keys, values []str
 		case config.EncodedSlashesOn:
 			value, _ = url.PathUnescape(value)
 		default:
-			unescaped, _ := url.PathUnescape(strings.ReplaceAll(value, "%2F", "$$$escaped-slash$$$"))
-			value = strings.ReplaceAll(unescaped, "$$$escaped-slash$$$", "%2F")
+			value = unescapeExceptEncodedSlashes(value)
 		}
 	}
 
